@@ -396,6 +396,18 @@ def run_compiler_check(ctx, res, prop):
                          model=dict(gates=canon_gates(rep["gates"])[:40] if "gates" in rep else None, qmap=rep.get("qmap"),
                                     n=rep.get("num_qubits"), error=rep.get("error")))
     res.extra["compiler_stats"] = stats
+    if (not thorough) and res.disagreements and not res.violations and not getattr(ctx, "_widened", False):
+        # model and code disagree but no input violating the property was found yet: widen the search
+        # (the thorough tier's case set) before reporting no-failing-input-found
+        ctx._widened = True
+        ctx.log(f"[{prop}] model/code disagreement without a failing input: widening the search")
+        saved = ctx.tier
+        ctx.tier = "thorough"
+        try:
+            run_compiler_check(ctx, res, prop)
+        finally:
+            ctx.tier = saved
+        res.notes.append("search widened to the thorough case set after a model/code disagreement")
     res.rule = ("programs: a third (quick) / all (thorough) of the 193 programs of the repository's suite, 25 statement-form "
                 "programs, random bool programs, random mixed-width Qint programs (each through the real front-end with "
                 "defaultOptimizer and fastOptimizer) and random definition lists fed to to_quantum directly; x uncompute "
